@@ -230,7 +230,9 @@ func (f *funcObject) hasOwnPropertyStr(name unistring.String) bool {
 func (f *funcObject) stringKeys(all bool, accum []Value) []Value {
 	if all {
 		if _, exists := f.values["prototype"]; !exists {
-			accum = append(accum, asciiString("prototype"))
+			// materialise it so that it is listed in creation order (after "length" and "name"),
+			// never before integer keys, and at the same position every time
+			f.addPrototype()
 		}
 	}
 	return f.baseFuncObject.stringKeys(all, accum)
